@@ -131,3 +131,34 @@ package segread
 //@     invariant [a-failed-run-stays-recorded] implies(ghost(0, "tsRunFailed") == 1, retErr != nil)
 //@   ensures [a-failed-run-is-reported] implies(ghost(0, "tsRunFailed") == 1, result1 != nil)
 //@ end
+
+// C18 (arbitrary bytes fed to an on-disk decoder never crash the server): the
+// segment statistics file (.sst) has no checksum; its decoder is panic-free
+// for EVERY content of the file (`safe`, no precondition on the bytes).
+//@ func hasBytes
+//@   props C18
+//@   pure
+//@   safe
+//@   ensures result == (uint64(off) + uint64(n) <= uint64(len(buf)))
+//@ end
+//@ func ReadSegStats
+//@   props C18
+//@   safe
+//@   loop 1:
+//@     invariant rIdx >= 1
+//@ end
+//@ func readSingleSst
+//@   props C18
+//@   requires len(fdata) <= 4294967295
+//@   safe
+//@ end
+//@ func readNumericStats
+//@   props C18
+//@   requires sst != nil && len(fdata) <= 4294967295
+//@   safe
+//@ end
+//@ func readNonNumericStats
+//@   props C18
+//@   requires sst != nil && len(fdata) <= 4294967295
+//@   safe
+//@ end
